@@ -434,7 +434,208 @@ def c04_correspond(ctx):
     return co.correspond(ctx.cache, LEAN, sel, ctx.seed + 4, per_entry=per)
 
 
+# ---------------------------------------------------------------------------------------------------
+# C16, C17
+# ---------------------------------------------------------------------------------------------------
+
+def _targets(ctx, failing, corr, broken, pred, limit=3000, seed_off=0):
+    rng = random.Random(ctx.seed + seed_off)
+    ids = set()
+    for rows in failing.values():
+        for (eid, fmt) in rows:
+            ids.add((eid, int(fmt)))
+    if corr:
+        for d in corr['disagreements']:
+            ids.add((d['id'].split('@')[0], d['fmt']))
+    by_id = ctx.by_id
+    out = []
+    if ids:
+        for (eid, fmt) in sorted(ids):
+            e = by_id.get(eid)
+            if e is not None and pred(e):
+                out.append((e, fmt))
+    if not out and broken:
+        for e in ctx.model:
+            if pred(e):
+                for fmt in (32, 64, 80):
+                    out.append((e, fmt))
+        rng.shuffle(out)
+        out = out[:limit]
+    return out, rng
+
+
+def _run_targets(ctx, targets, rng, reps=3):
+    reqs, info = [], []
+    for (e, fmt) in targets:
+        for inst in e['instances'][:1]:
+            v = inst['fmts'].get(str(fmt))
+            if v is None:
+                continue
+            infm = co.input_formats(v['tree'], v['n_in'], fmt)
+            for _ in range(reps):
+                vals = co.gen_inputs(rng, infm, v['n_in'])
+                reqs.append((e['index'], fmt, [co.hex_of(*x) for x in vals], inst['params']))
+                info.append((e, fmt, v, vals, infm))
+    if not reqs:
+        return []
+    res, err, rc = ctx.run_native(reqs)
+    return list(zip(info, res))
+
+
+def _val(x):
+    s, m, ex = x
+    return Fraction(-m if s else m) * Fraction(2) ** ex
+
+
+def c16_search(ctx, failing, corr, broken):
+    import pyfloat
+    targets, rng = _targets(ctx, failing, corr, broken,
+                            lambda e: e['meta']['kind'] in ('cast-ctor', 'cast-assign'), seed_off=16)
+    out = []
+    for (e, fmt, v, vals, infm), r in _run_targets(ctx, targets, rng):
+        if r is None or r.get('error'):
+            continue
+        if e['meta']['cls'] in ('Direction', 'PlanarDirection') and e['meta']['kind'] == 'cast-ctor':
+            continue
+        outs = num_outs(r)
+        n = len(outs)
+        off = 0 if e['meta']['kind'] == 'cast-ctor' else n
+        for i, (label, c) in enumerate(outs):
+            if off + i >= len(vals):
+                break
+            want = pyfloat.round_to(_val(vals[off + i]), fmt)
+            wc = want if isinstance(want, str) else co.canon(want)
+            if c.lstrip('-') == '0 0' and wc.lstrip('-') == '0 0':
+                continue
+            if c != wc:
+                out.append({'kind': 'c16-cast', 'entry': e['id'], 'fmt': fmt, 'index': e['index'],
+                            'inputs': [co.hex_of(*x) for x in vals], 'component': i,
+                            'native_output': c, 'plain_cast_of_source_component': wc, 'outputs': r['outs'],
+                            'what': '%s: component %d is %s, the plain cast of the source component is %s' % (
+                                e['id'], i, c, wc)})
+                break
+        if len(out) >= 5:
+            break
+    return out
+
+
+COMP_NAMES = {2: ['x', 'y'], 3: ['x', 'y', 'z'], 6: ['xx', 'xy', 'xz', 'yy', 'yz', 'zz'],
+              9: ['xx', 'xy', 'xz', 'yx', 'yy', 'yz', 'zx', 'zy', 'zz']}
+
+
+def c17_expected(e, n, i):
+    name = e['meta'].get('name', '')
+    if e['meta']['kind'] in ('ctor', 'cast-ctor', 'cast-assign', 'free', 'hash', 'stream', 'stdmath'):
+        return None
+    if name == 'Value' and not e['meta'].get('unit'):
+        return i
+    if name in ('SetValue', 'MutableValue'):
+        return n + i
+    names = COMP_NAMES.get(n)
+    if not names:
+        return None
+    base, pre = name, ''
+    if name.startswith('Mutable_'):
+        pre, base = 'mut', name[8:]
+    elif name.startswith('Set_'):
+        pre, base = 'set', name[4:]
+    if n == 6:
+        base = {'yx': 'xy', 'zx': 'xz', 'zy': 'yz'}.get(base, base)
+    if base in names:
+        k = names.index(base)
+        if pre == '':
+            return k
+        return n if i == k else i
+    if base == '_'.join(names):
+        return i if pre == '' else n + i
+    return None
+
+
+def c17_search(ctx, failing, corr, broken):
+    targets, rng = _targets(ctx, failing, corr, broken,
+                            lambda e: not e['meta']['cls'].startswith(('unit:', 'model:')) and
+                            e['meta'].get('name') and not e['meta'].get('unit') and
+                            (e['meta']['name'] == 'Zero' or c17_expected(e, 3, 0) is not None or
+                             c17_expected(e, 9, 0) is not None or c17_expected(e, 6, 0) is not None or
+                             c17_expected(e, 2, 0) is not None or e['meta']['name'] in ('Value', 'SetValue', 'MutableValue')),
+                            seed_off=17)
+    out = []
+    for (e, fmt, v, vals, infm), r in _run_targets(ctx, targets, rng):
+        if r is None or r.get('error'):
+            continue
+        outs = num_outs(r)
+        ci = ctx.classes['class_index'].get(e['meta']['cls'])
+        n = ctx.classes['classes'][ci - 1]['comps'] if ci else 0
+        for i, (label, c) in enumerate(outs):
+            if e['meta']['name'] == 'Zero':
+                want = '0 0'
+            else:
+                j = c17_expected(e, n, i)
+                if j is None or j >= len(vals):
+                    continue
+                s, m, ex = vals[j]
+                want = co.canon(_val(vals[j]), neg_zero=(m == 0 and s))
+            if c != want:
+                out.append({'kind': 'c17-access', 'entry': e['id'], 'fmt': fmt, 'index': e['index'],
+                            'inputs': [co.hex_of(*x) for x in vals], 'component': i, 'native_output': c,
+                            'expected_stored_value': want, 'outputs': r['outs'],
+                            'what': '%s: slot %d is %s, expected the stored number %s' % (e['id'], i, c, want)})
+                break
+        if len(out) >= 5:
+            break
+    # static half: the compiler's own facts
+    try:
+        layout = json.load(open(os.path.join(ctx.cache, 'layout.json')))
+        for r in layout:
+            ci = ctx.classes['class_index'].get(r['cls'])
+            n = ctx.classes['classes'][ci - 1]['comps']
+            if r['size'] != n * r['num_size'] or not r['trivially_copyable'] or not r['standard_layout'] \
+                    or r['polymorphic'] or n not in (1, 2, 3, 6, 9):
+                out.append({'kind': 'c17-layout', 'row': r, 'stored_numbers': n,
+                            'what': 'PhQ::%s<%s>: sizeof %d, %d stored numbers of %d bytes, trivially_copyable=%s '
+                                    'standard_layout=%s polymorphic=%s' % (
+                                        r['cls'], {32: 'float', 64: 'double', 80: 'long double'}[r['fmt']],
+                                        r['size'], n, r['num_size'], r['trivially_copyable'],
+                                        r['standard_layout'], r['polymorphic'])})
+                if len(out) >= 8:
+                    break
+    except FileNotFoundError:
+        pass
+    return out
+
+
+def quantity_corr(pred, seed_off, per_quick=2, per_thorough=30):
+    def f(ctx):
+        sel = [e for e in ctx.model if not e['meta']['cls'].startswith(('unit:', 'model:')) and pred(e)]
+        per = per_quick if ctx.tier == 'quick' else per_thorough
+        return co.correspond(ctx.cache, LEAN, sel, ctx.seed + seed_off, per_entry=per)
+    return f
+
+
 SPECS = {
+    'C16': {
+        'id': 'C16', 'level': 'proof',
+        'lean_targets': ['PhQVerif.Audit.C16'],
+        'checkers': [('C16cast', 'quantityEntries')],
+        'correspond': quantity_corr(lambda e: e['meta']['kind'] in ('cast-ctor', 'cast-assign'), 16, 4, 60),
+        'search': c16_search,
+        'assumptions': ['Fl.cast is the exact value rounded once to the target format (nearest-even); validated '
+                        'bit for bit against cvtss2sd/cvtsd2ss/fld/fstp by the correspondence',
+                        'direction clause read as: converting constructor = cast then normalise; converting '
+                        'assignment = plain cast (DESIGN.md section 7, C16)'],
+    },
+    'C17': {
+        'id': 'C17', 'level': 'proof',
+        'lean_targets': ['PhQVerif.Audit.C17'],
+        'checkers': [('C17access', 'quantityEntries'), ('C20uninitStrict', 'quantityEntries')],
+        'correspond': quantity_corr(lambda e: e['meta'].get('name') in ('Zero', 'Value', 'SetValue', 'MutableValue')
+                                    or str(e['meta'].get('name', '')).startswith(('Set_', 'Mutable_'))
+                                    or e['meta'].get('name') in sum(COMP_NAMES.values(), []), 17, 2, 20),
+        'search': c17_search,
+        'assumptions': ['layout half: sizeof/alignof/type traits are facts reported by g++ for the 288 instantiations '
+                        '(complete table), not a model; the theorem checks them against the class table'],
+        'trusted_extra': ['g++ 12 reporting sizeof, alignof, is_trivially_copyable, is_standard_layout, is_polymorphic'],
+    },
     'C04': {
         'id': 'C04', 'level': 'proof',
         'lean_targets': ['PhQVerif.Audit.C04'],
